@@ -268,6 +268,8 @@ def gen_file(rng, fmt=None, size_class=None, with_data=True):
         nd = rng.range(0, 4); ng = rng.range(0, 3); nv = rng.range(0, 4)
     elif size_class == 'medium':
         nd = rng.range(1, 8); ng = rng.range(0, 12); nv = rng.range(1, 10)
+    elif size_class == 'huge':           # header of >= 600 KiB: several genuine 256 KiB chunks
+        nd = rng.range(10, 20); ng = rng.range(180, 220); nv = rng.range(150, 300)
     else:
         nd = rng.range(2, 20); ng = rng.range(5, 60); nv = rng.range(5, 40)
     has_unlim = nd > 0 and rng.chance(2, 3)
@@ -276,7 +278,10 @@ def gen_file(rng, fmt=None, size_class=None, with_data=True):
         f.dims.append(Dim(rand_name(rng, used), 0 if i == upos else rng.choice([1, 1, 2, 3, 4, 5, 7])))
     aused = set()
     for _ in range(ng):
-        f.gatts.append(rand_att(rng, fmt, aused, big=(size_class == 'large')))
+        a = rand_att(rng, fmt, aused, big=(size_class == 'large'))
+        if size_class == 'huge':
+            a.nelems = rng.range(500, 3000); a.data = rng_bytes(rng, a.nelems * XSZ[a.typ])
+        f.gatts.append(a)
     vused = set()
     for i in range(nv):
         k = rng.range(0, min(4, nd))
@@ -293,7 +298,7 @@ def gen_file(rng, fmt=None, size_class=None, with_data=True):
             if nd == 1 and upos == 0 and not ids:
                 ids = [0]
         vu = set()
-        atts = [rand_att(rng, fmt, vu) for _ in range(rng.choice([0, 0, 1, 2, 3] if size_class != 'large' else [0, 1, 2, 5, 9]))]
+        atts = [rand_att(rng, fmt, vu) for _ in range(rng.choice([0, 0, 1, 2, 3] if size_class not in ('large', 'huge') else [0, 1, 2, 5, 9]))]
         f.vars.append(Var(rand_name(rng, vused), ids, atts, rng.range(1, 11 if fmt == 5 else 6)))
     # free choices of the encoder
     for key in ['dims', 'gatts', 'vars'] + [('vatts', i) for i in range(nv)]:
